@@ -81,6 +81,27 @@ def histories():
         return a, b
     H["solver-after-transcription"] = solver_after
 
+    def solver_twice(after):
+        def f(m):
+            # the last solver() call alone decides the settings: an option given only in an EARLIER call is gone
+            a, s = _base(m, pval=pv(), solver=None); a.solver("ipopt", {"ipopt.max_iter": 1, "ipopt.tol": 1e-4})
+            if after:
+                a._transcribed
+            a.solver("ipopt", {"ipopt.tol": 1e-6})
+            b, t = _base(m, pval=pv(), solver=None); b.solver("ipopt", {"ipopt.tol": 1e-6})
+            return a, b
+        return f
+    H["solver-called-twice-second-call-drops-an-option"] = solver_twice(False)
+    H["solver-called-twice-with-a-query-in-between"] = solver_twice(True)
+
+    def solver_then_method(m):
+        a, s = _base(m, pval=pv(), solver=None); a.solver("ipopt", {"ipopt.max_iter": 1}); a._transcribed
+        from rockit import MultipleShooting
+        a.method(MultipleShooting(N=2, M=1)); a.solver("ipopt", {})
+        b, t = _base(m, pval=pv(), solver=None); b.method(MultipleShooting(N=2, M=1)); b.solver("ipopt", {})
+        return a, b
+    H["solver-options-dropped-after-a-method-change"] = solver_then_method
+
     def initial_after(m):
         a, s = _base(m, pval=pv()); a._transcribed; a.set_initial(s["x"], unknown("gx", 2, 1)); a.set_initial(s["u"], a.t * 2)
         b, t = _base(m, pval=pv()); b.set_initial(t["x"], unknown("gx", 2, 1)); b.set_initial(t["u"], b.t * 2)
